@@ -38,6 +38,44 @@ def run(v, tier, seed, replay=None):
                 v.violation('C12:bound', 'peak live heap while reading %d objects is %d bytes, above the bound %d that holds for any file length ("%s": objects of %d bytes, containers of %d)' % (n, p, allowed, name, ob, cs),
                             {'scenario': name, 'peaks': pk, 'bound': allowed})
                 break
+    # write sessions with a producer slower than the workers (the stream drains completely between objects)
+    wl = []
+    for nobj, ob, cs in ((150, 5000, 4096), (600, 5000, 4096), (600, 5000, 0x20000)) if tier == 'quick' else ((150, 5000, 4096), (600, 5000, 4096), (2400, 5000, 4096), (600, 5000, 0x20000), (2400, 300, 100)):
+        wl.append(('FN %d %d %d 300' % (nobj, ob, cs), nobj, ob, cs))
+    wo = sessrun.run_impl(plain, [x[0] for x in wl])
+    wpeaks = []
+    for (line, nobj, ob, cs), o in zip(wl, wo):
+        if not o.startswith('FN ok'):
+            nbad += 1
+            v.violation('C12:write:run', 'write-session memory scenario %s: %s' % (line, o[:80]), {'scenario': line, 'implementation': o[:200]})
+            continue
+        pk = int(o.split('peak=')[1])
+        wpeaks.append((nobj, ob, cs, pk))
+        allowed = 2 * (3 * cs) + 12 * ob + 200000      # buffer = one container; queue of 10 objects; slack — independent of nobj
+        if pk > allowed:
+            nbad += 1
+            v.violation('C12:write:bound', 'peak live heap while writing %d objects of %d bytes (containers of %d) is %d bytes, above the bound %d that holds for any number of objects' % (nobj, ob, cs, pk, allowed),
+                        {'scenario': line, 'peak': pk, 'bound': allowed})
+    # the stream class on its own, deterministically: append a container, read it, dropOldData — N times; also with the
+    # reader stopping inside containers and with objects straddling them: the containers held must not grow with N
+    mexe = common.build_model_driver()
+    uexe = common.build_harness('uf')
+    ulines = []
+    for n in (40, 400):
+        ulines.append('U ' + ' '.join('c0102030405060708 r8 d' for _ in range(n)))
+        ulines.append('U ' + ' '.join('c0102030405060708 r5 d r3 d' for _ in range(n)))
+        ulines.append('U C8 ' + ' '.join('w010203040506070809 r9 d' for _ in range(n)))
+        ulines.append('U ' + ' '.join('c01020304 c05060708 r8 d' for _ in range(n)))
+    um = codec.run_model(mexe, ulines)
+    ui = codec.run_impl(uexe, ulines)
+    for l, m, i in zip(ulines, um, ui):
+        last = i.rsplit('|', 1)[-1].split(',')[-1] if '|' in i else ''
+        held = len([x for x in last.split(';') if x])
+        if m != i or held > 2:
+            nbad += 1
+            v.violation('C12:stream', 'UncompressedFile holds %d containers after %d append/read/dropOldData rounds (%s)' % (held, l.count(' d'), 'model and implementation differ' if m != i else 'both'),
+                        {'ops': l[:300] + ' ...', 'implementation_final': i[-300:], 'model_final': m[-300:]})
+            break
     if not ok and not v.violations:
         for fl in failed:
             v.violation('coq:' + fl['lemma'], 'proof obligation %s (%s:%d) no longer checks: %s' % (fl['lemma'], fl['file'], fl['line'], fl['error'][:200]),
@@ -48,7 +86,7 @@ def run(v, tier, seed, replay=None):
         'trusted_base': TRUSTED + info['print_assumptions'], 'failed_obligations': info['failed'],
         'evaluations': len(lines), 'distinct_nontrivial': len(lines),
         'rule': 'files of N and 4N objects are written by the library and read back with a consumer that pauses every 8 objects; the live-heap high-water mark (replaced operator new/delete) during reading is compared: it may differ by allocator noise and a couple of containers, not in proportion to N. Scenarios: objects spanning several containers, many objects per container, containers larger than the construction-time buffer, tiny containers. Non-trivial = distinct scenario.',
-        'peaks': {k: [(n, p) for n, p, _, _ in vv] for k, vv in peaks.items()}, 'failures': nbad,
+        'peaks': {k: [(n, p) for n, p, _, _ in vv] for k, vv in peaks.items()}, 'write_session_peaks': wpeaks, 'failures': nbad,
         'samples': lines[:3],
         'theorems': ['C12_write_bounded', 'C12_read_bounded', 'C12_drop_leaves_less_than_a_container'],
     })
